@@ -49,6 +49,8 @@ RULE = ('Hypothesis-generated cases: 1-6 static-registration files forming an in
         'only) and one statement targets an unknown configurable/module; entry point in '
         '{parse_config, parse_config_file, parse_config_files_and_bindings (0-3 files, extra '
         'bindings, finalize_config default/False/True)} x skip_unknown {not passed, True, False}; '
+        'finalize_config / skip_unknown are omitted, passed by keyword or passed positionally '
+        '(third / fourth argument of the multi-file entry point, second of the other two); '
         'with no files the files argument is [] / None / (), with no bindings the bindings '
         'argument is [] / None / ""; optionally, after a successful call that left the config '
         'unlocked, the multi-file entry point is called again with nothing to parse '
@@ -96,7 +98,9 @@ FLOORS = {
     'default-skip-with-unknown:config': 0.01, 'default-skip-with-unknown:file': 0.01,
     'default-skip-with-unknown:multi': 0.01, 'missing:abs-direct': 0.003,
     'nspath:namespace-dir-consulted': 0.05, 'selected:custom-reader': 0.05,
-    'multi:nothing-to-parse,finalize-default': 0.004,
+    'unknown:in-extra-bindings,skipped': 0.005, 'unknown:skipped': 0.02,
+    'multi:nothing-to-parse,finalize-default': 0.004, 'args:multi-finalize-positional-False': 0.02,
+    'args:multi-skip-positional': 0.03, 'args:skip-positional': 0.05,
     'after:nothing-to-parse,finalize-default': 0.03, 'ns:file-only-in-later-portion': 0.015,
     'ns:several-portions-hold-file': 0.005,
     'selected:package-reader': 0.03, 'decoy-present': 0.10,
@@ -187,11 +191,13 @@ def strategy():
       lambda n: st.lists(_file(), min_size=n, max_size=n))
   return st.fixed_dictionaries({
       'entry': st.sampled_from(['config', 'file', 'multi']),
-      'skip': st.sampled_from(['default', 'default', 'true', 'false']),
+      'skip': st.sampled_from(['default', 'default', 'true', 'true', 'false']),
       'finalize': st.sampled_from(['default', 'default', 'false', 'true']),
       'roots': st.sampled_from([0, 1, 1, 2, 2, 3]),
       'eform': st.integers(0, 8),
+      'argstyle': st.integers(0, 2),
       'after': st.one_of(st.none(), st.none(), st.fixed_dictionaries({
+          'argstyle': st.integers(0, 2),
           'finalize': st.sampled_from(['default', 'default', 'false', 'true']),
           'skip': st.sampled_from(['default', 'true', 'false']),
           'eform': st.integers(0, 8)})),
@@ -279,8 +285,11 @@ class Model:
     self.binding_items = [list(s) for s in case['bindings']]
     unk = case['unknown']
     if unk is not None:
-      slots = n + (1 if self.entry == 'multi' else 0)
-      w = unk['file'] % slots
+      if self.entry == 'multi':
+        # odd: the extra bindings; even: one of the files
+        w = n if unk['file'] % 2 else (unk['file'] // 2) % n
+      else:
+        w = unk['file'] % n
       target = self.items[w] if w < n else self.binding_items
       target.insert(unk['at'] % (len(target) + 1), ['unk', unk['form']])
     self.missing = None if case['missing'] is None else case['missing'] % n
@@ -511,6 +520,10 @@ class Model:
         continue
       if kind == 'unk':
         self.labels.add('unknown:in-included-file' if len(self.stack) > 1 else 'unknown:top')
+        if i == 'B':
+          self.labels.add('unknown:in-extra-bindings')
+          if self.skip_passed:
+            self.labels.add('unknown:in-extra-bindings,skipped')
         if not self.skip_passed:
           raise _Fault('unknown', i)
         self.labels.add('unknown:skipped')
@@ -651,6 +664,35 @@ def _namespace_dir_consulted(m):
   return False
 
 
+def _multi_args(fin, skip, style):
+  """Arguments after (config_files, bindings) of the multi-file entry point, whose documented
+  signature continues (finalize_config=True, skip_unknown=False).  style 0: keywords only;
+  1: finalize_config positional (third); 2: finalize_config and skip_unknown positional (third,
+  fourth).  'default' = not passed, unless a later positional argument forces the value, in
+  which case the documented default is passed explicitly."""
+  pos, kw, how = [], {}, []
+  skip_pos = style == 2 and skip != 'default'
+  if (style and fin != 'default') or skip_pos:
+    pos.append(fin != 'false')
+    how.append('finalize-positional')
+  elif fin != 'default':
+    kw['finalize_config'] = fin == 'true'
+    how.append('finalize-keyword')
+  else:
+    how.append('finalize-omitted')
+  if skip_pos:
+    pos.append(skip == 'true')
+    how.append('skip-positional')
+  elif skip != 'default':
+    kw['skip_unknown'] = skip == 'true'
+    how.append('skip-keyword')
+  else:
+    how.append('skip-omitted')
+  if pos[:1] == [False]:
+    how.append('finalize-positional-False')
+  return pos, kw, how
+
+
 def _empty_files(eform):
   return [[], None, ()][eform % 3]
 
@@ -756,23 +798,28 @@ def _check(case, tmp):
     return None
   gin.config.register_finalize_hook(hook)
 
-  kw = {}
-  if skip == 'true':
-    kw['skip_unknown'] = True
-  elif skip == 'false':
-    kw['skip_unknown'] = False
+  style = case.get('argstyle', 0)
   finalize_requested = False
+  if entry != 'multi':
+    # skip_unknown is the second parameter of parse_config and parse_config_file
+    pos, kw = [], {}
+    if skip != 'default':
+      if style:
+        pos = [skip == 'true']
+        labels.add('args:skip-positional')
+      else:
+        kw['skip_unknown'] = skip == 'true'
   if entry == 'config':
     root_text = m._render(0, 'root')     # pylint: disable=protected-access
-    call = lambda: gin.parse_config(root_text, **kw)
+    call = lambda: gin.parse_config(root_text, *pos, **kw)
   elif entry == 'file':
-    call = lambda: gin.parse_config_file(m.names[0], **kw)
+    call = lambda: gin.parse_config_file(m.names[0], *pos, **kw)
   else:
-    if case['finalize'] == 'false':
-      kw['finalize_config'] = False
-    elif case['finalize'] == 'true':
-      kw['finalize_config'] = True
+    pos, kw, how = _multi_args(case['finalize'], skip, style)
+    labels.update('args:multi-' + h for h in how)
     finalize_requested = case['finalize'] != 'false'
+    # 'default' in labels means: really not passed
+    fin_label = 'true' if case['finalize'] == 'default' and pos else case['finalize']
     extra = [m._render_item('B', 'B', idx, item)     # pylint: disable=protected-access
              for idx, item in enumerate(m.binding_items)]
     if not extra:
@@ -785,9 +832,9 @@ def _check(case, tmp):
       roots = _empty_files(case.get('eform', 0))
     if not roots and not extra:
       labels.add('multi:nothing-to-parse')
-      labels.add('multi:nothing-to-parse,finalize-' + case['finalize'])
-    call = lambda: gin.parse_config_files_and_bindings(roots, extra, **kw)
-    labels.add('multi:finalize-' + case['finalize'])
+      labels.add('multi:nothing-to-parse,finalize-' + fin_label)
+    call = lambda: gin.parse_config_files_and_bindings(roots, extra, *pos, **kw)
+    labels.add('multi:finalize-' + fin_label)
     labels.add(f'multi:files={m.nroots}')
 
   got = None
@@ -797,7 +844,7 @@ def _check(case, tmp):
   except Exception as e:  # pylint: disable=broad-except
     err = e
   cs = gin.config_str()
-  desc = f'entry={entry} skip_unknown={skip} kwargs={sorted(kw)}'
+  desc = f'entry={entry} skip_unknown={skip} extra positional args={pos} kwargs={kw}'
 
   labels.add('entry:' + entry)
   labels.add('skip:' + skip)
@@ -828,8 +875,10 @@ def _check(case, tmp):
             lambda: f'{desc}: a statement on an unknown name (in {fault.where}) did not raise; '
                     f'flattened text so far:\n{flat_text}')
     labels.add('outcome:unknown-raised')
-    if skip == 'default':
+    if 'skip_unknown' not in kw and len(pos) < (2 if entry == 'multi' else 1):
       labels.add('default-skip-with-unknown:' + entry)
+    elif len(pos) >= (2 if entry == 'multi' else 1):
+      labels.add('positional-skip-false-with-unknown:' + entry)
     return ok(labels, False)
 
   # ---- a name nobody can read -----------------------------------------------------------------
@@ -908,17 +957,14 @@ def _check(case, tmp):
   # ---- later in the same process: the multi-file entry point with nothing to parse ----------
   after = case.get('after')
   if after is not None and not gin.config_is_locked():
-    akw = {}
-    if after['skip'] != 'default':
-      akw['skip_unknown'] = after['skip'] == 'true'
-    if after['finalize'] != 'default':
-      akw['finalize_config'] = after['finalize'] == 'true'
+    apos, akw, how = _multi_args(after['finalize'], after['skip'], after.get('argstyle', 0))
+    labels.update('args:multi-' + h for h in how)
     a_files, a_bindings = _empty_files(after['eform']), _empty_bindings(after['eform'])
     adesc = (f'{desc}, then parse_config_files_and_bindings({a_files!r}, {a_bindings!r}, '
-             f'**{akw})')
+             f'*{apos}, **{akw})')
     calls_before = len(hook_snapshots)
     try:
-      a_got = gin.parse_config_files_and_bindings(a_files, a_bindings, **akw)
+      a_got = gin.parse_config_files_and_bindings(a_files, a_bindings, *apos, **akw)
     except Exception as e:  # pylint: disable=broad-except
       raise Violation('unexpected-error', f'{adesc}: {type(e).__name__}: {e}')
     require(isinstance(a_got, (list, tuple)) and not a_got, 'tree-shape',
@@ -937,7 +983,8 @@ def _check(case, tmp):
       require(not gin.config_is_locked() and ran == 0, 'finalized-although-told-not-to',
               lambda: f'{adesc}: locked={gin.config_is_locked()} hook calls={ran}')
     labels.add('after:nothing-to-parse')
-    labels.add('after:nothing-to-parse,finalize-' + after['finalize'])
+    labels.add('after:nothing-to-parse,finalize-' +
+               ('true' if after['finalize'] == 'default' and apos else after['finalize']))
   if _tree_imports_differ(trees):
     labels.add('tree:imports-differ')
   labels.add('outcome:ok')
